@@ -28,6 +28,13 @@ CHECKS = {
         note="Trusted: the canonicaliser (sim/observe.py), SimReader, the in-memory str delivery as reference, CPython's strict codecs for the expected offset of undecodable bytes. K1 (eager validation of a refill block) is accepted as a known finding in exactly the class described in known_findings.txt. The C back-end is the generated _yaml.c / shipped .so (no Cython in the sandbox).",
         technique="deterministic simulation of the input channel: seeded read-size schedules + reference delivery as oracle",
         quick_timeout=900, thorough_timeout=10800),
+    "C18": dict(
+        category="exploration",
+        text="Seeded multi-document streams (documents from empty to several refill blocks, comment/blank gaps, '...' and directive boundaries, several blocks of tail) delivered as text / UTF-8 / UTF-16 through SimReader with seeded read-size schedules to scan / parse / compose_all / load_all on both back-ends. Three oracles: (bound) at each document delivery, units handed out by the stream minus the end of the document's terminating token <= 2 refill blocks (4096 units pure Python, 16384 LibYAML) with no extra tolerance; (order) k good documents + one malformed document (20 malformation kinds at scanner / parser / directive / composer / constructor / reader level): exactly the k documents are delivered, then the error; (release) with the cyclic GC disabled a weak reference to the stream dies as soon as the generator is closed, thrown into, dropped or exhausted, at seeded abandonment points, for all ten shipped loader classes. Sampling is the right level: the bound is a worst-case statement over unboundedly many (stream, schedule) pairs; the measured maxima (8187 / 16381) are reported so that the margin is visible.",
+        design_ref="DESIGN.md section 3, C18",
+        note="Trusted: SimReader's account of units handed out, a reference scan/parse of the in-memory text for document ends, CPython reference counting for the release oracle. K1 (reader-level defects pre-empt earlier documents of the same refill block) is accepted as a known finding only with the ReaderError at the expected offset.",
+        technique="deterministic simulation of the input channel and of the generator's consumer: seeded read schedules, consumption accounting at each yield, abandonment points",
+        quick_timeout=900, thorough_timeout=10800),
     "C19": dict(
         category="fault_enumeration",
         text="For each seeded case (values / documents x API x loader or dumper class incl. both back-ends x stream kind x callback set) the fault-free run records the invocation sequence of read / write / flush / constructor / representer / documents-iterator calls, and then EVERY index of that sequence is used as the failure point in a fresh execution (exhaustive per case; capped at 1000 points with first/last/flush-adjacent/seeded sample for the rare larger case), with the exception kind rotating through 21 kinds including every type the library catches internally. Checked per point: identity of the exception object, unchanged type/args/cause/notes, written or yielded prefix, fault-free follow-up run and reference call, unchanged global state; plus seeded sequences of 2-3 consecutive faulted calls. Exhaustive in the crash-point dimension of each case, sampled in the case dimension.",
